@@ -49,6 +49,9 @@ pub struct HttpPlan {
     pub sndbufs: Option<Vec<i32>>,
     /// extra virtual time to keep the worker running after all clients are done (lets timeouts fire)
     pub settle_ns: u64,
+    /// additional frontends: (hostname, cluster id or None = deny/401)
+    #[serde(default)]
+    pub extra_frontends: Vec<(String, Option<String>)>,
 }
 
 #[derive(Clone, Debug, Default, Serialize, Deserialize)]
@@ -77,7 +80,12 @@ pub struct HttpOutcome {
 
 pub fn config_requests(plan: &HttpPlan) -> Vec<Request> {
     let mut v: Vec<Request> = Vec::new();
-    v.push(RequestType::AddHttpListener(ListenerBuilder::new_http(plan.front.into()).to_http(None).unwrap()).into());
+    let mut lb = ListenerBuilder::new_http(plan.front.into());
+    lb.with_front_timeout(Some(plan.knobs.front_timeout))
+        .with_back_timeout(Some(plan.knobs.back_timeout))
+        .with_connect_timeout(Some(plan.knobs.connect_timeout))
+        .with_request_timeout(Some(plan.knobs.request_timeout));
+    v.push(RequestType::AddHttpListener(lb.to_http(None).unwrap()).into());
     v.push(RequestType::ActivateListener(ActivateListener { address: plan.front.into(), proxy: ListenerType::Http.into(), from_scm: false }).into());
     for c in &plan.clusters {
         v.push(RequestType::AddCluster(Cluster { cluster_id: c.id.clone(), ..Default::default() }).into());
@@ -99,6 +107,16 @@ pub fn config_requests(plan: &HttpPlan) -> Vec<Request> {
                 backup: None,
             }).into());
         }
+    }
+    for (host, cluster) in &plan.extra_frontends {
+        v.push(RequestType::AddHttpFrontend(RequestHttpFrontend {
+            cluster_id: cluster.clone(),
+            address: plan.front.into(),
+            hostname: host.clone(),
+            path: PathRule::prefix("/".to_string()),
+            position: RulePosition::Tree.into(),
+            ..Default::default()
+        }).into());
     }
     v
 }
